@@ -25,7 +25,8 @@ from mc.runner import Out
 
 ID = "C17"
 RULE = (
-    "BFS to depth d (2 quick; thorough: 3 from 1-D axes of length <= 3, 2 otherwise) from every initial axis (first x step x length x step-attribute/estimated x array layout); "
+    "BFS to depth d (2 quick; thorough: 3 from 1-D axes of length <= 3, 2 otherwise) from every initial axis (first x step x length x step-attribute/estimated x array layout, "
+    "plus the frequency axis of a real compute_spectrogram result with a fractional-sample window, attributes as the library wrote them); "
     "transitions: crop_dim with both bounds on existing coordinates or midway between neighbours (all pairs, all four closedness settings), "
     "extend_dim with bounds 0..2 steps beyond each end on lattice points or half a step further (closedness per the soundness rule), "
     "adjust_dim_width / crop_dim_width / extend_dim_width for every width 0..len+3 x {start, center, end}. One evaluation per transition; "
@@ -41,7 +42,10 @@ ASSUMPTIONS = [
 ]
 
 FIRSTS = {"0": 0.0, "half": 0.5, "10/3": 10.0 / 3.0, "36000": 36000.0}
-STEPS = {"1": 1.0, "half": 0.5, "0.01": 0.01, "1/3": 1.0 / 3.0, "quarter": 0.25}
+STEPS = {"1": 1.0, "half": 0.5, "0.01": 0.01, "1/3": 1.0 / 3.0, "quarter": 0.25, "spec": 2000.0}
+# the 'spec' axis is the frequency axis of a real compute_spectrogram result (8000 Hz source, window of 4.5 samples -> 4 samples ->
+# bins 0, 2000, 4000 Hz); its step attribute is whatever the library wrote, the model lattice is the bins' own
+SPEC_RATE, SPEC_WINDOW, SPEC_HOP = 8000, 4.5 / 8000, 2.0 / 8000
 DYADIC = {("0", "1"), ("0", "half"), ("half", "1"), ("half", "half"), ("36000", "quarter"), ("0", "quarter")}
 FILLS = [-7.0, -9.0, -11.0, -13.0]
 
@@ -61,6 +65,7 @@ def inits(tier):
     for n in ([4] if tier == "quick" else [2, 4, 5]):
         for attr in ([True] if tier == "quick" else [True, False]):
             out.append({"first": "0", "step": "1", "n": n, "attr": attr, "layout": "1d", "dtype": "int"})
+    out.append({"first": "0", "step": "spec", "n": 3, "attr": True, "layout": "1d", "source": "spectrogram"})
     for f, s, n, attr, lay in itertools.product(firsts, steps, lens, [True, False], layouts):
         if not attr and n < 2:
             continue
@@ -103,6 +108,9 @@ def make_initial(init):
     if init.get("dtype") == "int":
         coords = np.arange(n, dtype=np.int64) + int(first)  # an integer-typed axis (sample or frame numbers)
     var = xr.Variable("x", coords, attrs={"step": step} if init["attr"] else {})
+    if init.get("source") == "spectrogram":
+        var = spectrogram_axis()
+        assert list(var.data) == list(coords), (list(var.data), list(coords))
     base = np.arange(n) + 1.0
     lay = init["layout"]
     if lay == "1d":
@@ -112,6 +120,18 @@ def make_initial(init):
     else:
         arr = xr.DataArray(np.stack([base, base * 100], axis=0), dims=["ch", "x"], coords={"x": var, "ch": [0, 1]})
     return St(init, arr, 0, n - 1, {k: float(k + 1) for k in range(n)}, 0)
+
+
+def spectrogram_axis():
+    """Frequency coordinate (with the attributes the library gave it) of a spectrogram whose window is a fractional number of samples."""
+    from soundevent import audio
+    from soundevent.arrays import create_time_dim_from_array
+    t = np.arange(16) / SPEC_RATE
+    wav = xr.DataArray(np.sin(np.arange(16.0))[:, None], dims=["time", "channel"],
+                       coords={"time": create_time_dim_from_array(t, samplerate=SPEC_RATE), "channel": [0]})
+    spec = audio.compute_spectrogram(wav, window_size=SPEC_WINDOW, hop_size=SPEC_HOP)
+    f = spec.coords["frequency"]
+    return xr.Variable("x", np.asarray(f.data, dtype=float), attrs=dict(f.attrs))
 
 
 def has_attr(arr):
